@@ -135,6 +135,27 @@ Definition go_rd_u16 := go_rd_be 2.
 Definition go_rd_u32 := go_rd_be 4.
 Definition go_rd_u64 := go_rd_be 8.
 
+(* sort.Search(n, f): the binary search of package sort, literally:
+     i, j := 0, n; for i < j { h := int(uint(i+j) >> 1); if !f(h) { i = h + 1 } else { j = h } }; return i
+   f is called on indexes in [0, n) only; [f h = None] stands for a run-time check failing inside f (the search panics).
+   For a monotone f it returns the least index where f holds, n if there is none (GoSemFacts.go_search_least). *)
+Fixpoint go_bsearch (fuel : nat) (i j : Z) (f : Z -> option bool) : option Z :=
+  match fuel with
+  | O => None
+  | Datatypes.S k =>
+      if i <? j then
+        let h := (i + j) / 2 in
+        match f h with
+        | None => None
+        | Some false => go_bsearch k (h + 1) j f
+        | Some true => go_bsearch k i h f
+        end
+      else Some i
+  end.
+Definition go_search_opt (n : Z) (f : Z -> option bool) : option Z := go_bsearch (Datatypes.S (Z.to_nat n)) 0 n f.
+Definition go_search (n : Z) (f : Z -> option bool) : Z := match go_search_opt n f with Some i => i | None => 0 end.
+Definition go_search_ok (n : Z) (f : Z -> option bool) : bool := match go_search_opt n f with Some _ => true | None => false end.
+
 (* sync/atomic on an int32 variable (the state is its value): CompareAndSwapInt32(&x, old, new), AddInt32(&x, d) *)
 Definition go_atomic_cas32 (old new : Z) (x : Z) : Z * bool := if x =? old then (new, true) else (x, false).
 Definition go_atomic_add32 (d : Z) (x : Z) : Z * Z := let v := wrapS 32 (x + d) in (v, v).
